@@ -244,7 +244,7 @@ def call_value(ex, st, f, pos, kw, node=None, star=None, dstar=None):
         key = '%s:%s' % (inf.mod, inf.name) if inf.cls is None else '%s.%s' % (inf.cls, inf.name)
         if key in ex.contracts and inf.fid is None:
             return outs + ex.contracts[key](ex, st, pos, kw, node, star, dstar)
-        return outs + call_function(ex, st, inf.node, inf.mod, inf.cls, inf.fid, pos, kw, inf.name, star, dstar)
+        return outs + call_function(ex, st, inf.node, inf.mod, inf.cls, inf.fid, pos, kw, inf.name, star, dstar, defaults=getattr(inf, 'defaults', None))
     if inf.kind == 'method':
         args = list(pos) if inf.mkind == 'static' else [inf.recv] + list(pos)
         if inf.key in ex.contracts:
@@ -279,7 +279,118 @@ def call_method(ex, st, o, cn, name, args, kwargs, node=None):
     return outs
 
 
-def call_function(ex, st, node, mod, cls, parent_fid, args, kwargs, name=None, star=None, dstar=None):
+def _const_default(e):
+    """a default whose value is the same whenever it is evaluated (literal constants, names / attributes of module-level constants and classes)"""
+    if isinstance(e, ast.Constant):
+        return True
+    if isinstance(e, ast.UnaryOp) and isinstance(e.operand, ast.Constant):
+        return True
+    if isinstance(e, (ast.Name, ast.Attribute)):
+        return True
+    if isinstance(e, ast.Tuple):
+        return all(_const_default(x) for x in e.elts)
+    return False
+
+
+def default_value(ex, st, mod, cls, node, expr, pname):
+    """value of a parameter default of a module-level function / method.  Python evaluates it ONCE, when the `def` is executed (import time):
+    a constant expression has the same value now; anything else (a call such as datetime.utcnow(), a mutable display [] / {}) is an object that
+    exists before the call with whatever state earlier calls left in it -- modelled as an unconstrained pre-existing value."""
+    if _const_default(expr):
+        st.push({}, None, (mod, cls, node))
+        rs = ex.ev(expr, st)
+        if len(rs) != 1 or rs[0][1][0] != 'val':
+            raise Unsupported('default value expression forks')
+        st2 = rs[0][0]; st2.pop()
+        return st2, rs[0][1][1]
+    from . import lib as _lib
+    _lib.used('E: a non-constant parameter default (%s=%s) is evaluated once at definition time: unconstrained pre-existing value' % (pname, ast.unparse(expr)[:40]))
+    if isinstance(expr, (ast.List, ast.ListComp)):
+        return st, st.sym_obj('default_' + pname, 'list')
+    if isinstance(expr, (ast.Dict, ast.DictComp)):
+        return st, st.sym_obj('default_' + pname, 'dict')
+    return st, fresh('default_' + pname)
+
+
+def bind_default_lazily(ex, st, name):
+    """a unit entered with a frame that does not bind a defaulted parameter (the sidecar predates the parameter): bind the default now"""
+    fid = st.stack[-1]
+    while fid is not None:
+        mod, cls, node = st.fctx[fid]
+        if node is not None and hasattr(node, 'args'):
+            a = node.args; params = [p.arg for p in a.args]
+            if name in params:
+                j = params.index(name) - (len(params) - len(a.defaults))
+                if j < 0 or name in st.frames[fid]:
+                    return None
+                st2, v = default_value(ex, st, mod, cls, node, a.defaults[j], name)
+                st2.frames[fid][name] = v
+                return st2, v
+        fid = st.fparent[fid]
+    return None
+
+
+def _enclosing_functions(tree, node):
+    out = []
+    for f in ast.walk(tree):
+        if isinstance(f, (ast.FunctionDef, ast.Lambda)) and f is not node and any(x is node for x in ast.walk(f)):
+            out.append(f)
+    out.sort(key=lambda f: -f.lineno)          # innermost first
+    return out
+
+
+def _own_statements(f):
+    """nodes of a function body that belong to its own scope (nested function bodies excluded)"""
+    todo = list(f.body) if isinstance(f.body, list) else [f.body]
+    while todo:
+        x = todo.pop()
+        yield x
+        for c in ast.iter_child_nodes(x):
+            if not isinstance(c, (ast.FunctionDef, ast.Lambda, ast.ClassDef)):
+                todo.append(c)
+
+
+def bind_enclosing_lazily(ex, st, name):
+    """a unit entered directly at a nested function (the decorator wrappers) reads a variable of an enclosing function scope that the sidecar does
+    not bind (the code gained a closure variable): it was assigned when the enclosing function ran -- once per decoration, any number of calls
+    ago -- so it is modelled as an unconstrained pre-existing value; a mutable container keeps whatever earlier calls left in it."""
+    fid = st.stack[-1]
+    while st.fparent.get(fid) is not None:
+        fid = st.fparent[fid]
+    mod, cls, node = st.fctx[fid]
+    if node is None or name in st.frames[fid]:
+        return None
+    tree = ex.repo.modules[mod].tree if mod in ex.repo.modules else None
+    if tree is None:
+        return None
+    for f in _enclosing_functions(tree, node):
+        params = [p.arg for p in f.args.args] + ([f.args.vararg.arg] if f.args.vararg else []) + ([f.args.kwarg.arg] if f.args.kwarg else [])
+        values = [x.value for x in _own_statements(f) if isinstance(x, ast.Assign) and any(isinstance(t, ast.Name) and t.id == name for t in x.targets)]
+        stored = any(isinstance(x, ast.Name) and x.id == name and isinstance(x.ctx, ast.Store) for x in _own_statements(f))
+        if name not in params and not stored:
+            continue
+        from . import lib as _lib
+        _lib.used('E: variable %r of the enclosing scope %s is not bound by the sidecar: unconstrained value that exists before the call' % (name, getattr(f, 'name', '<lambda>')))
+        kinds = set()
+        for v in values:
+            if isinstance(v, (ast.Dict, ast.DictComp)) or (isinstance(v, ast.Call) and isinstance(v.func, ast.Name) and v.func.id in ('dict', 'OrderedDict')):
+                kinds.add('dict')
+            elif isinstance(v, (ast.List, ast.ListComp)) or (isinstance(v, ast.Call) and isinstance(v.func, ast.Name) and v.func.id == 'list'):
+                kinds.add('list')
+            else:
+                kinds.add(None)
+        if values and kinds == {'dict'}:
+            v = st.sym_obj('enclosing_' + name, 'dict')
+        elif values and kinds == {'list'}:
+            v = st.sym_obj('enclosing_' + name, 'list')
+        else:
+            v = fresh('enclosing_' + name)
+        st.frames[fid][name] = v
+        return st, v
+    return None
+
+
+def call_function(ex, st, node, mod, cls, parent_fid, args, kwargs, name=None, star=None, dstar=None, defaults=None):
     """inline a repository function / lambda in a new frame (no contract: the body is the specification)"""
     if len(st.stack) > MAXDEPTH:
         raise Unsupported('inlining depth exceeded at ' + str(name))
@@ -298,11 +409,10 @@ def call_function(ex, st, node, mod, cls, parent_fid, args, kwargs, name=None, s
             j = i - (len(params) - len(dflt))
             dv = None
             if j >= 0:
-                st.push({}, None, (mod, cls, node))
-                rs = ex.ev(dflt[j], st)
-                if len(rs) != 1 or rs[0][1][0] != 'val':
-                    raise Unsupported('default value expression forks')
-                st = rs[0][0]; st.pop(); dv = rs[0][1][1]
+                if defaults is not None:
+                    dv = defaults[j]                       # a nested def / lambda: evaluated when the closure was created, in its defining scope
+                else:
+                    st, dv = default_value(ex, st, mod, cls, node, dflt[j], p)
             if star is not None and i >= len(args):
                 sp = ex.spine(st, star)
                 if sp is None:
